@@ -7,6 +7,7 @@ package clone
 // verif:bound C09 designed assemblies with 1..2 (quick) / 1..3 (thorough) junctions, 1..2 alternative fragments per slot (at most 4 fragments in quick), every fragment supplied in either orientation, two input orders, an optional dead-end decoy; fragment interiors one symbolic base (ACGT) plus a fixed tag base each; junction labels distinct, non-palindromic and free of reverse-complement pairs
 // verif:bound C09 schedules at synchronisation-point granularity: designed-ring harness default run-to-block schedule (quick) plus LIFO mirror and 1 deviation (thorough); scheduling-independence harness on concrete pools of 1..3 fragments: default, LIFO mirror and all schedules deviating at <= 2 (quick) / 3 (thorough) of the first 24 choice points
 // verif:bound C09 termination: pools of 3 fragments whose overhangs close a cycle that excludes the seed; call depth / goroutine count as the termination obligation
+// verif:bound C09 library clause: a concrete pool of 5 (quick) / 6 (thorough) junctions with 3 alternatives per slot (243 / 729 rings, 1215 / 4374 construct deliveries), mixed orientations; a closed computation executed by the engine (termination, count and distinctness of the rings; no symbolic input)
 // verif:assume C09 seqhash.Hash is executed from SSA with BLAKE3 as an assumed collision-free uninterpreted function (see C04/C05)
 // verif:bound C09 outside the claim: GOMAXPROCS, the Go scheduler, the race detector and pre-emption between synchronisation points; more than 3 junctions; the full GoldenGate pipeline (CutWithEnzymeByName + CircularLigate) is exercised for 1..2 parts with BsaI, linear or circular carriers at 4 rotations (quick) / every rotation (thorough)
 
@@ -235,6 +236,67 @@ func Harness_C09_Termination() {
 	if len(got) == 1 {
 		vAssert(cSameMolecule(got[0].Sequence, c09Junctions[0]+b+c09Junctions[1]+c), "the-ring-of-the-cycle")
 	}
+}
+
+// a combinatorial library: every slot has several alternatives, so that the number of
+// constructs handed over by the ligation goroutines grows as alternatives^slots * slots
+// junction labels of the library: distinct, non-palindromic, no label is the reverse complement of another
+var c09LibJunctions = []string{"AATG", "GCTT", "CGAA", "TACC", "CAGT", "GACA"}
+
+func Harness_C09_Library() {
+	k := vTier(5, 6)
+	na := 3
+	var frags []Fragment
+	flip := vChoice(2)
+	for i := 0; i < k; i++ {
+		for a := 0; a < na; a++ {
+			interior := string("ACGT"[a]) + string("ACGT"[(i+a)%4])
+			f := Fragment{interior, c09LibJunctions[i], c09LibJunctions[(i+1)%k]}
+			if (i+a+flip)%2 == 1 { // supplied in the opposite orientation
+				f = Fragment{cRC(interior), cRC(c09LibJunctions[(i+1)%k]), cRC(c09LibJunctions[i])}
+			}
+			frags = append(frags, f)
+		}
+	}
+	want := 1
+	for i := 0; i < k; i++ {
+		want *= na
+	}
+	vTerminates(400000000)
+	var got []Part
+	panicked := vPanics(func() { got = CircularLigate(frags) })
+	vAssert(!panicked, "ligation-does-not-panic")
+	if panicked {
+		return
+	}
+	vAssert(len(got) == want, "library-has-alternatives^slots-constructs")
+	seen := map[string]bool{}
+	wellFormed := true
+	for _, g := range got {
+		// rotate (either strand) so that junction 0 comes first
+		s := g.Sequence
+		canon := ""
+		for _, t := range []string{s, cRC(s)} {
+			d := t + t
+			for o := 0; o < len(t); o++ {
+				if d[o:o+4] == c09LibJunctions[0] && d[o+6:o+10] == c09LibJunctions[1%k] {
+					canon = d[o : o+len(t)]
+				}
+			}
+		}
+		if len(s) != 6*k || canon == "" {
+			wellFormed = false
+			continue
+		}
+		for i := 0; i < k; i++ {
+			if canon[6*i:6*i+4] != c09LibJunctions[i] {
+				wellFormed = false
+			}
+		}
+		seen[canon] = true
+	}
+	vAssert(wellFormed, "every-construct-is-a-designed-ring")
+	vAssert(len(seen) == want, "no-two-constructs-are-the-same-molecule")
 }
 
 func Selftest_C09_Vectors() {
